@@ -42,6 +42,7 @@ import (
 	"reflect"
 	"runtime"
 	"strconv"
+	"testing/iotest"
 	"unsafe"
 
 	"github.com/go-json-experiment/json"
@@ -381,7 +382,16 @@ func (fr *fileRun) read(data []byte, failAt int) (ids []int, res sx) {
 		fillJunk(pv.Elem(), 0)
 		out = pv.Interface()
 	}
-	err := avro.ReadFile(bufio.NewReader(bytes.NewReader(data)), out, func(p unsafe.Pointer, rb *avro.ResourceBank) error {
+	// the source varies: a default bufio.Reader, a tiny buffer over a source that returns half of what is asked for (every
+	// multi-byte read is short), an odd-sized buffer (markers and payloads straddle refills)
+	var src avro.Reader = bufio.NewReader(bytes.NewReader(data))
+	switch fr.runs % 3 {
+	case 1:
+		src = bufio.NewReaderSize(iotest.HalfReader(bytes.NewReader(data)), 16)
+	case 2:
+		src = bufio.NewReaderSize(bytes.NewReader(data), 37)
+	}
+	err := avro.ReadFile(src, out, func(p unsafe.Pointer, rb *avro.ResourceBank) error {
 		d := dumpVal(reflect.NewAt(fr.t, p).Elem())
 		key := d.String()
 		id, ok := fr.intern[key]
